@@ -4,7 +4,10 @@
 package main
 
 import (
+	"fmt"
 	"os"
+	"strings"
+	"sync"
 
 	"verif/harness/histlib"
 	"verif/harness/hx"
@@ -14,11 +17,36 @@ func main() {
 	o := hx.ParseFlags("C04")
 	res := hx.NewResult(o, "c04: disturbance histories on real SQLite + litestream")
 	res.Rule = "seeded histories of 1-3 rounds of {app activity with syncs; a disturbance: clean stop + app activity (writes, any checkpoint mode, closing the last connection, VACUUM) + start as new DB object | start of the same DB object | crash | database file replaced by an older copy | meta directory removed | run-time ResetLocalState}; then SyncAndWait and Replica.Sync; non-trivial = at least one acknowledged instant after a disturbance checked by page-image comparison; distinct = canonical history text"
-	or := histlib.Oracles{AckRestore: true, NoStall: true, Classify: classify}
+	or := histlib.Oracles{AckRestore: true, NoStall: true, Classify: classify, TraceVerify: true}
+	drv, err := hx.StartDriver(o.Driver)
+	if err != nil {
+		hx.Fatal(err)
+	}
+	defer drv.Close()
 	if o.Replay != "" {
 		os.Exit(histlib.ReplayMain(o, or))
 	}
-	histlib.RunEngine(o, res, histlib.EngineSpec{ID: "C04", Gen: histlib.GenC04, Oracles: or, NQuick: 250, NThorough: 5000})
+	histlib.RunEngine(o, res, histlib.EngineSpec{ID: "C04", Gen: histlib.GenC04, Oracles: or, NQuick: 250, NThorough: 5000,
+		Extra: func(h histlib.History, st histlib.RunStats, res *hx.Result, mu *sync.Mutex) {
+			mu.Lock()
+			defer mu.Unlock()
+			for _, v := range st.VerifyObs {
+				if v.Real == "err" {
+					res.Count("verify:real-error")
+					continue
+				}
+				model, err := drv.Ask(v.Line)
+				if err != nil {
+					hx.Fatal(err)
+				}
+				res.Count("verify:" + strings.SplitN(v.Real, " idx", 2)[0] + strings.TrimPrefix(v.Real[strings.Index(v.Real, " clear"):], " "))
+				if hx.Differs(v.Real, model) {
+					res.DisagreementsChecked++
+					res.AddFinding("disagreement", "C04/verify-model-vs-impl", fmt.Sprintf("verify: litestream decided %q, model %q", v.Real, model),
+						map[string]any{"history": h, "text": h.String(), "line": v.Line})
+				}
+			}
+		}})
 	if err := res.Write(o.Out); err != nil {
 		hx.Fatal(err)
 	}
